@@ -545,8 +545,8 @@ pub fn main(ctx: &Ctx) {
     campaign(
         ctx,
         Campaign {
-            total_cases: ctx.pick(2_000, 100_000),
-            max_shrink_iters: 400,
+            total_cases: ctx.pick(2_000, 30_000),
+            max_shrink_iters: 200,
             limits: Limits { cpu_s: 20, wall_s: 120, as_bytes: 4 << 30 },
             meta: Meta {
                 rule: "one writer of a keyed (KeyedData) or keyless (Unkeyed) type, created enabled or disabled (publisher autoenable off, enable() at a generated point or never), 3-25(60) ops register/unregister/dispose/write/lookup (plain and _w_timestamp) over 1-5 keys with handle argument none/own/other-instance/unknown; every result compared with the documented contract through the R-WRITER model (set of registered instances); non-trivial = at least one error-path expectation (NotEnabled/IllegalOperation/BadParameter/PreconditionNotMet) was checked and >= 3 ops ran; distinct = hash of the case",
